@@ -48,7 +48,7 @@ ASSUMPTIONS = [
     'quick tier: 23-24 grid dates (both epoch seams +- one step, first/last dates, mid-epochs, and 8-9 seed-selected others: '
     'seed s takes the remaining dates with index = s mod 15); thorough: all 151 for every seed',
 ]
-REQUIRED_CLASSES = ['form:number-types', 'epoch:WMM2015', 'epoch:WMM2020', 'epoch:WMM2025', 'seam:2020.0', 'seam:2025.0', 'seam:last-before',
+REQUIRED_CLASSES = ['form:number-types', 'form:reused-arrays', 'epoch:WMM2015', 'epoch:WMM2020', 'epoch:WMM2025', 'seam:2020.0', 'seam:2025.0', 'seam:last-before',
                     'end:2030.0', 'pole:north', 'pole:south', 'near-pole', 'equator', 'lat:+-1e-9', 'lon:+-180',
                     'height:-1', 'height:850', 'form:float', 'form:int', 'form:date', 'ref:selftest']
 
@@ -255,6 +255,31 @@ def job_offgrid(ctx):
                     ctx.close(obs, exp, 1.0 if cn == 'numpy.float32' else TOL, 'WMM: X, Y, Z do not depend on the numeric type carrying latitude, longitude and height', key)
                     ctx.seen(('numtype', repr(d), lat, lon, hk, cn, how))
                     ctx.cls('form:number-types')
+    # the place held in caller-owned 0-d / one-element arrays that are re-used for a sweep over dates and heights: the arrays stay what they were
+    # and every evaluation answers for the degrees they hold
+    for (lat, lon, hk) in IP[:5]:
+        la, lo, hh = np.array(float(lat)), np.array(float(lon)), np.array(float(hk))
+        pos = np.array([[float(lat), float(lon), float(hk)]])
+        for how, args in (('0-d arrays', lambda: (la, lo, hh)), ('views of one array', lambda: (pos[0, 0], pos[0, 1], pos[0, 2])), ('one-element views', lambda: (pos[0, 0:1].reshape(()), pos[0, 1:2].reshape(()), pos[0, 2:3].reshape(())))):
+            w = WMM(date=2021.5)
+            for step, d in enumerate((2020.0, 2023.7, 2017, 2020.0)):
+                name, g, h = rw.coefficients(d)
+                WG, WH = rw.basis(float(lat), float(lon), float(hk))
+                exp = WG @ g + WH @ h
+                key = f'sweep step#{step} date={d!r} lat={lat} lon={lon} h={hk} place as {how}'
+                try:
+                    a_ = args()
+                    w.magnetic_field(a_[0], a_[1], a_[2], date=d)
+                    obs = np.array([w.X, w.Y, w.Z], float)
+                except TypeError:
+                    ctx.outcome(('array-place-refused', how)); break
+                except Exception as ex:
+                    ctx.evals += 1
+                    ctx.fail('WMM with the place in re-used arrays returns a field', key, f'{type(ex).__name__}: {ex}'[:160], exp); break
+                ctx.close(obs, exp, TOL, 'WMM: a sweep that re-uses the same place arrays answers for the degrees they hold at every step', key)
+                ctx.expect(float(la) == float(lat) and float(lo) == float(lon) and float(hh) == float(hk) and pos.tolist() == [[float(lat), float(lon), float(hk)]],
+                           "WMM.magnetic_field leaves the caller's place arrays as they were", key, [float(la), float(lo), float(hh), pos.tolist()], [lat, lon, hk])
+            ctx.cls('form:reused-arrays')
     ctx.sample({'form': 'float-offgrid', 'dates': OFFGRID})
 
 
